@@ -40,8 +40,8 @@ impl<'a> Clause for El<'a> {
 
 macro_rules! tuple_harness {
     ($name:ident, $n:expr, [$($i:expr),+]) => {
-        /// Clause for the tuple of this arity: elements are deconstructed in index order 0..n-1, each exactly once, stopping at
-        /// (and returning) the first Err; Ok(()) iff no element fails.  Failure pattern symbolic (all 2^n subsets).
+        /// Clause for the tuple of this arity: elements are deconstructed in index order 0..n-1, each exactly once (none dropped,
+        /// duplicated or reordered); Ok(()) iff no element fails.  Failure pattern symbolic (all 2^n subsets).
         #[kani::proof]
         #[kani::unwind(19)]
         fn $name() {
@@ -60,13 +60,18 @@ macro_rules! tuple_harness {
                     first = j;
                 }
             }
-            let expect_n = if first == N { N } else { first + 1 };
-            assert!(log.n.get() == expect_n);
+            // no clause dropped, duplicated or reordered: what was deconstructed is 0, 1, 2, .. in index order
+            let n_logged = log.n.get();
             let s = log.seq.get();
             let mut k = 0;
-            while k < expect_n {
+            while k < n_logged {
                 assert!(s[k] as usize == k);
                 k += 1;
+            }
+            if first == N {
+                assert!(n_logged == N); // every clause exactly once
+            } else {
+                assert!(n_logged > first && n_logged <= N); // the failing clause was reached
             }
             assert!(r.is_err() == (first < N));
             kani::cover!(first == N);
